@@ -560,12 +560,19 @@ func (fv *FuncVC) applyContract(site ssa.Instruction, fc *FuncContract, key stri
 			parts := strings.SplitN(cg.Name, "|", 2)
 			if parts[1] == g.Name && (parts[0] == fmt.Sprintf("%s#%d", short, n) || parts[0] == short) {
 				cenv := fv.newEnv(fv.cur, fv.entry)
-				env.vars[g.Name] = cenv.expr(cg.E, cg.Pos)
+				gv := cenv.expr(cg.E, cg.Pos)
+				if gt, _ := fv.resolveType(g.Type); gt != nil {
+					gv.T = gt
+				}
+				env.vars[g.Name] = gv
 				bound = true
 			}
 		}
 		if !bound {
-			env.vars[g.Name] = fv.freshConst("gh."+mangle(g.Name), fv.sortOfTypeString(g.Type))
+			gt, gs := fv.resolveType(g.Type)
+			gv := fv.freshConst("gh."+mangle(g.Name), gs)
+			gv.T = gt
+			env.vars[g.Name] = gv
 		}
 	}
 	// preconditions
